@@ -1,1 +1,4 @@
 import PdProps.C19
+import PdProps.C02
+import PdProps.C05
+import PdProps.C17
